@@ -194,6 +194,7 @@ func init() {
 	Properties["C07"] = &PropertySpec{
 		Modules: st,
 		Rules: []Rule{
+			R66(),
 			Only(R56(), `^a/`, `^c/`),
 			R46(),
 			Only(R44(), `memstore`),
